@@ -3,6 +3,7 @@ from .. import gen, model, rt
 from ..core import Acc, Violation, run_hypothesis, shard_seed
 
 PROPERTY = 'C01'
+SIZES_RULE = ' Size sweep: one dimension of the document at a time (rows, columns, grid/column metadata tags, list items, dict tags, string/URI/Ref-display/XStr length, grids per document, rows of a nested grid, distinct string cells, distinct numbers/dates/times, digits, nested lists/dicts) is pushed over every power-of-two and power-of-ten boundary up to the limits in gen.SIZE_LIMIT and judged by the same oracle.'
 FMT = 'zinc'
 RULE = ('model grids over the Haystack value domain of DESIGN.md 1.4 (every kind in grid meta / column meta / cells / list '
         'items / dict values / nested-grid cells, all code points, boundary floats, all mapped zones, nesting <= 3, '
@@ -10,7 +11,7 @@ RULE = ('model grids over the Haystack value domain of DESIGN.md 1.4 (every kind
         '(boundary payloads per kind, every zone, every kind in every position) and the scalar path '
         'parse_scalar(dump_scalar(v)). Oracle: kind-strict model comparison of the parsed result with the input '
         '(own comparator, not Grid.__eq__). Non-trivial = at least one non-null value somewhere in the grid / a '
-        'non-null scalar; distinct by canonical hash of the model.')
+        'non-null scalar; distinct by canonical hash of the model.' + SIZES_RULE)
 ASSUMPTIONS = ['value domain restrictions of DESIGN.md 1.4 (tag-name syntax, unit alphabet not starting with "_", '
                'Quantity values finite, years 2..9998 for date-times, xstr type name other than "Bin")',
                'a missing row key and a None cell are the same cell']
@@ -23,6 +24,7 @@ def plan(tier, seed, excl):
     t = [('catalogue-scalars', {'ver': v, 'shard': i, 'of': 2}) for v in ('2.0', '3.0') for i in range(2)]
     t += [('catalogue-grids', {'shard': i, 'of': 4}) for i in range(4)]
     t += [('scalars', {'shard': i, 'n': 4000 if q else 60000}) for i in range(10)]
+    t += [('sizes', {'shard': i, 'of': 16, 'tier': tier}) for i in range(16)]
     t += [('grids', {'shard': i, 'n': 700 if q else 8000}) for i in range(16)]
     return t
 
@@ -55,6 +57,8 @@ def run(part, args, env, fmt=FMT):
             except Violation as v:
                 acc.violation(v)
         acc.exhaustive['every kind sample x every position x versions'] = True
+    elif part == 'sizes':
+        sizes_part(acc, args, lambda case: rt.check_doc(case, fmt), {'form': 'text'})
     elif part == 'scalars':
         strat = st.sampled_from(['2.0', '3.0']).flatmap(
             lambda v: gen.values(v, depth=1, excl=excl).map(lambda m: {'kind': 'scalar', 'ver': v, 'value': m}))
@@ -80,6 +84,22 @@ def run(part, args, env, fmt=FMT):
     for k, v in gen.ALTERED.items():
         acc.excluded[k] += v
     return acc
+
+
+def sizes_part(acc, args, check, extra=None, skip=None):
+    n = 0
+    for case, labels in rt.sized_cases(args['tier'], args['shard'], args['of'], extra):
+        if skip is not None and skip(case):
+            continue
+        acc.case(case['sized'], True, labels=labels)
+        n += 1
+        if n % 40 == 1:
+            acc.sample({'sized': case['sized']})
+        try:
+            check(case)
+        except Violation as v:
+            acc.violation(v)
+    acc.exhaustive['size sweep (every boundary in gen.SIZE_STEPS up to gen.SIZE_LIMIT, per axis and version)'] = True
 
 
 def forms_for(fmt):
